@@ -1,13 +1,15 @@
 use crate::analysis::AvailableValue;
 use crate::cfg::Cfg;
-use crate::parser::{HasRegisterSets, Register};
+use crate::parser::{HasIdentity, HasRegisterSets, Register};
 use crate::passes::{DiagnosticManager, LintError, LintPass};
+use itertools::Itertools;
 
 // Check if the values of callee-saved registers are restored to the original value at the end of the function
 pub struct CalleeSavedRegisterCheck;
 impl LintPass for CalleeSavedRegisterCheck {
     fn run(cfg: &Cfg, errors: &mut DiagnosticManager) {
-        for func in cfg.functions().values() {
+        // `functions()` maps every label to its function: visit each function once
+        for func in cfg.functions().values().unique_by(|func| func.id()) {
             let exit_vals = func.exit().reg_values_in();
             for reg in &Register::callee_saved_set() {
                 match exit_vals.get(&reg) {
